@@ -129,8 +129,8 @@ package join
 //@ func (*Discipline).resetJoin
 //@   requires [*] WFJ(dsc)
 //@   modifies dsc.join
-//@   ensures [* C03 C08 C10 C16] dsc.unreleased ==> dsc.join == old(dsc.join)
-//@   ensures [* C03 C08 C10 C16] !dsc.unreleased ==> (len(dsc.join) == 0 && dsc.join.arr == old(dsc.join.arr) && cap(dsc.join) == old(cap(dsc.join)) && dsc.join.off == old(dsc.join.off))
+//@   ensures [*] dsc.join.arr == old(dsc.join.arr) && cap(dsc.join) == old(cap(dsc.join)) && dsc.join.off == old(dsc.join.off)
+//@   ensures [* C03 C08 C10 C16] len(dsc.join) == 0 || (dsc.unreleased && len(dsc.join) == old(len(dsc.join)))
 
 //@ func (*Discipline).prepareItem
 //@   requires [*] dsc != nil
